@@ -61,8 +61,11 @@ NullStatus == {"free", "constant"}
 (* What the rich function went through BEFORE it is initialised is no part of Projected either: a batch of rules   *)
 (* that was refused (an exception out of apply_param_rules) is a stuttering step of the function.                   *)
 Priors == {"none", "refused-batch"}
-NStep == \E status \in NullStatus, prior \in Priors :
-         NStepT /\ Emit([act |-> "Nested", null |-> Pairs[k].null.name, alt |-> Pairs[k].alt.name, nullstatus |-> status, prior |-> prior,
+(* Edge names are LABELS: how the tips are called (plain letters; names made of the same characters in another     *)
+(* order or number, "12" / "21" / "112") is no part of Projected either.                                            *)
+Namings == {"plain", "anagrams"}
+NStep == \E status \in NullStatus, prior \in Priors, naming \in Namings :
+         NStepT /\ Emit([act |-> "Nested", null |-> Pairs[k].null.name, alt |-> Pairs[k].alt.name, nullstatus |-> status, prior |-> prior, naming |-> naming,
                          nullparams |-> Pairs[k].null.params, altparams |-> AltInstance(Pairs[k]).params,
                          chosen |-> [x \in 1..Len(Pairs[k].alt.pnames) |-> <<Pairs[k].alt.pnames[x],
                                         IF Unmapped(Pairs[k], Pairs[k].alt.pnames[x]) THEN "default" ELSE Chosen(Pairs[k], Pairs[k].alt.pnames[x])>>],
